@@ -77,6 +77,8 @@ type ACSSpec struct {
 type SLOSpec struct {
 	Binding  string `json:"binding"`
 	Location string `json:"location"`
+	// ResponseLocation, when set, is written as the optional attribute of that name
+	ResponseLocation string `json:"response_location,omitempty"`
 }
 
 // SPSpec describes a service provider registered through its metadata.
@@ -182,6 +184,9 @@ func (sp SPSpec) MetadataXML() []byte {
 	for _, s := range sp.SLO {
 		e := xt.NewElem("md", NSMD, "SingleLogoutService")
 		e.SetAttr("Binding", s.Binding).SetAttr("Location", s.Location)
+		if s.ResponseLocation != "" {
+			e.SetAttr("ResponseLocation", s.ResponseLocation)
+		}
 		sso.AddText("\n    ").Add(e)
 	}
 	for _, a := range sp.ACS {
